@@ -1434,3 +1434,21 @@ Proof.
   split; [eapply parse_layout_invariant_say; [vm_compute; reflexivity|vm_compute; reflexivity|exact ex_related|vm_compute; reflexivity]|].
   eexists. vm_compute. reflexivity.
 Qed.
+
+(** without `says` tokens the relation is just: same kinds and spellings, token by token *)
+Lemma tksim_intro b b' l l' :
+  Forall2 (fun pt pt' => tsim (pt_tok pt) (pt_tok pt')) l l' -> Forall (fun pt => tid (pt_tok pt) <> TSays) l -> tksim b b' l l'.
+Proof.
+  induction 1 as [|pt pt' l l' Ht Hl IH]; intro Hn; constructor; auto.
+  - apply IH. inversion Hn; auto.
+  - inversion Hn as [|? ? Hp _]; subst. unfold is_says. intro Hy. destruct (tid (pt_tok pt)); try discriminate. contradiction.
+Qed.
+
+(** so, for sources that use neither `says` nor a mid-line `say`: same token kinds and spellings, same tree *)
+Corollary parse_layout_invariant_plain prof src src' pts pts' :
+  lex prof src = Ok pts -> lex prof src' = Ok pts' ->
+  Forall2 (fun pt pt' => tsim (pt_tok pt) (pt_tok pt')) (drop_comments pts) (drop_comments pts') ->
+  Forall (fun pt => tid (pt_tok pt) <> TSays) (drop_comments pts) ->
+  say_starts_lines true (drop_comments pts) = true ->
+  same_parse (parse prof src) (parse prof src').
+Proof. intros Hl Hl' Hf Hn Hs. eapply parse_layout_invariant_say; eauto. apply tksim_intro; auto. Qed.
